@@ -463,7 +463,9 @@ fn parse_stress(toks: &[&str]) -> Option<StressCfg> {
 }
 
 /// the body of the runtime thread
-fn rt_thread(cfg_drv: DriverType, lp: LoopKind, q: usize, iv: usize, tasks: usize, w: Arc<World>, ready: mpsc::Sender<Result<(), String>>) {
+type Handles = Vec<compio_runtime::JoinHandle<()>>;
+
+fn rt_thread(cfg_drv: DriverType, lp: LoopKind, q: usize, iv: usize, tasks: usize, w: Arc<World>, ready: mpsc::Sender<Result<Handles, String>>) {
     let b = match build(cfg_drv, q, iv) {
         Ok(b) => b,
         Err(e) => {
@@ -473,11 +475,14 @@ fn rt_thread(cfg_drv: DriverType, lp: LoopKind, q: usize, iv: usize, tasks: usiz
     };
     let main_idx = tasks;
     *w.slots[main_idx].waker.lock().unwrap() = Some(b.rt.waker());
+    // the join handles go to the harness thread: dropping them there cancels the tasks, which frees waker threads
+    // that spin on a full queue when the runtime is dead (only needed after a failure)
+    let mut handles: Handles = vec![];
     for i in 0..tasks {
         let fut = Parked { idx: i, w: w.clone() };
-        b.rt.enter(|| b.rt.spawn(fut)).detach();
+        handles.push(b.rt.enter(|| b.rt.spawn(fut)));
     }
-    let _ = ready.send(Ok(()));
+    let _ = ready.send(Ok(handles));
     let main = Parked { idx: main_idx, w: w.clone() };
     match lp {
         LoopKind::Own => {
@@ -539,15 +544,21 @@ fn wait_satisfied(w: &World, targets: &[usize], limit: Duration) -> Option<usize
     }
 }
 
+static HARD_FAIL: AtomicBool = AtomicBool::new(false);
+
 fn stress(cfg: &StressCfg, ex: &mut Exec) {
+    if HARD_FAIL.load(SeqCst) {
+        ex.tag("stress:skipped-after-hard-failure");
+        return;
+    }
     let n = cfg.tasks + 1;
     let w = World::new(n);
     let (tx, rx) = mpsc::channel();
     let (drv, lp, q, iv, tasks) = (cfg.drv, cfg.lp, cfg.q, cfg.iv, cfg.tasks);
     let w2 = w.clone();
     let rt_handle = std::thread::spawn(move || rt_thread(drv, lp, q, iv, tasks, w2, tx));
-    match rx.recv_timeout(Duration::from_secs(5)) {
-        Ok(Ok(())) => {}
+    let handles = match rx.recv_timeout(Duration::from_secs(5)) {
+        Ok(Ok(h)) => h,
         Ok(Err(e)) => {
             ex.tag(format!("stress:skipped:{e}"));
             let _ = rt_handle.join();
@@ -557,7 +568,7 @@ fn stress(cfg: &StressCfg, ex: &mut Exec) {
             ex.fail("C03:harness", "runtime thread did not start");
             return;
         }
-    }
+    };
     // wait until every future has parked once (wakers known)
     let all: Vec<usize> = (0..n).collect();
     let t0 = Instant::now();
@@ -686,10 +697,21 @@ fn stress(cfg: &StressCfg, ex: &mut Exec) {
     }
     // shut down
     w.stop.store(true, SeqCst);
-    for wk in wakers.iter() {
-        wk.wake_by_ref();
-    }
-    if !lost {
+    if lost {
+        // the runtime is dead (or a waker thread cannot return): every task waker may now spin forever on the full
+        // queue, so nothing here may call one on this thread. Cancel the tasks from a detached thread (frees the
+        // spinners whose SCHEDULED bit is set) and do not start further stress cases in this process.
+        HARD_FAIL.store(true, SeqCst);
+        std::thread::spawn(move || drop(handles));
+    } else {
+        // task wakers from a detached thread (they cannot block on a healthy runtime), the driver waker from here
+        let wk2 = wakers.clone();
+        let ntasks = cfg.tasks;
+        std::thread::spawn(move || {
+            for wk in wk2.iter().take(ntasks) {
+                wk.wake_by_ref();
+            }
+        });
         let t0 = Instant::now();
         while !rt_handle.is_finished() && t0.elapsed() < Duration::from_secs(3) {
             wakers[cfg.tasks].wake_by_ref();
@@ -697,8 +719,11 @@ fn stress(cfg: &StressCfg, ex: &mut Exec) {
         }
         if rt_handle.is_finished() {
             let _ = rt_handle.join();
+            drop(handles);
         } else {
             ex.fail(sig, "runtime thread did not finish after stop + wake");
+            HARD_FAIL.store(true, SeqCst);
+            std::thread::spawn(move || drop(handles));
         }
     }
     ex.tag(format!("stress:{:?}:{:?}:q{}", cfg.drv, cfg.lp, cfg.q).to_lowercase());
@@ -835,12 +860,12 @@ fn generate(tier: &str, rng: &mut Rng) -> Vec<Case> {
             k += 1;
         }
     }
-    let n_det = if thorough { 12_000 } else { 700 };
+    let n_det = if thorough { 15_000 } else { 1_500 };
     for i in 0..n_det {
         cases.push(gen_det(rng, format!("det-{i}")));
     }
     // (b) stress: a few configurations, many short rounds
-    let rounds = if thorough { 2500 } else { 160 };
+    let rounds = if thorough { 3000 } else { 300 };
     let mut k = 0;
     for drv in ["iour", "poll"] {
         for lp in ["own", "ext"] {
